@@ -363,6 +363,11 @@ class Calls:
                         # ``default = port.default; default()``: the *value* of the attribute is called
                         if isinstance(v, ast.Attribute):
                             vt = self._resolve(func, ast.Call(func=v, args=[], keywords=[]))
+                            if getattr(vt, 'benign', False) and not vt.uncontrolled:
+                                # ``add = items.append; add(x)``: a cached bound method of a container operation is that operation
+                                t.benign = True
+                                resolved_any = True
+                                continue
                             if vt.uncontrolled or any(f.has_decorator('property') for f in vt.funcs) or not (
                                     vt.funcs or vt.ctor or vt.ext):
                                 t.uncontrolled, t.ukind = True, 'attr-callable'
